@@ -18,12 +18,16 @@ def _bfs_worker(args):
     col = core.Collector()
     out = {}
     ntrans = 0
-    try:
+    def body():
+        nonlocal ntrans
         for state in chunk:
             for canon, nxt in expand(state, col):
                 ntrans += 1
                 if canon not in out:
                     out[canon] = nxt
+
+    try:
+        core.guarded(body, col, chunk[:1])
     except BaseException as e:
         col.violations.setdefault("__harness__", []).append(
             core.Violation("__harness__", "".join(traceback.format_exception(e))[-3000:],
@@ -42,6 +46,8 @@ def bfs(ctx, init, expand, max_depth=None, max_states=None, procs=None, label=""
             seen[canon] = st
             frontier.append(st)
     depth = 0
+    found_here = set()
+    open_sigs = {e["signature"] for e in core.load_known().get("open", []) if e.get("property") == ctx.prop}
     procs = procs or core.NPROC
     mp = multiprocessing.get_context("fork")
     pool = mp.Pool(procs) if procs > 1 else None
@@ -63,6 +69,7 @@ def bfs(ctx, init, expand, max_depth=None, max_states=None, procs=None, label=""
                 results = map(_bfs_worker, jobs)
             new = {}
             for col, out in results:
+                found_here.update(k for k in col.violations if k not in open_sigs)
                 ctx.merge(col)
                 for canon, st in out.items():
                     if canon not in seen and canon not in new:
@@ -75,6 +82,13 @@ def bfs(ctx, init, expand, max_depth=None, max_states=None, procs=None, label=""
             depth += 1
             if frontier:
                 ctx.max("max_depth", depth)
+            if found_here and frontier:
+                # successors of a violating transition mean nothing (on broken code the real
+                # objects drift away from the model and the state space explodes): the verdict
+                # is settled, the level that exposed it is complete, stop here
+                ctx.cap("%sbfs stopped after depth %d: %d violation signature(s) found up to this level"
+                        % (label, depth, len(found_here)))
+                break
             if max_states is not None and len(seen) >= max_states:
                 ctx.cap("%sbfs state cap %d reached" % (label, max_states))
                 break
